@@ -568,12 +568,24 @@ func (r *hdRun) exec(o *hdOp) string {
 		}
 		s.sendSync(c, []byte(`{"id":"b","type":"bye","bye":{}}`))
 		return fmt.Sprintf("OBye %d", o.C)
+	case "wfail":
+		// The server's writes to this connection fail from now on (it still believes the client connected).
+		// The model has no such state: the op is written as OConnect on the existing connection (a no-op of
+		// the model), from which on only the predicates judge the case (see Run_Hub.v is_wfail).
+		if c == nil || r.pub[o.C] == "" || !s.breakWrites(o.C) {
+			return ""
+		}
+		<-c.gone
+		return fmt.Sprintf("OConnect %d 0", o.C)
 	case "drop":
 		if c == nil {
 			return ""
 		}
 		c.conn.Close()
 		<-c.gone
+		c.mu.Lock()
+		c.closed = true
+		c.mu.Unlock()
 		return fmt.Sprintf("ODrop %d", o.C)
 	case "tick":
 		s.hub.performHousekeeping(time.Now().Add(time.Duration(o.O) * time.Second))
